@@ -175,7 +175,8 @@ class Ctx:
                    VERIF_OUT=outdir, VERIF_FACTS=os.path.join(BUILD, "facts.json"), VERIF_DATA=outdir)
         env.update(extra or {})
         rc, out, dt = sh([exe, "-test.run", "^TestVerifHarness$", "-test.timeout", f"{timeout}s", "-test.count=1"], cwd=outdir, env=env, timeout=timeout + 30)
-        log(f"harness {mode} n={n} rc={rc} {dt:.1f}s")
+        if not str(seed).startswith("shrink"):
+            log(f"harness {mode} n={n} rc={rc} {dt:.1f}s")
         if rc != 0:
             self.broken.append({"kind": "tie", "name": f"harness run ({mode})", "detail": out[-3000:]})
             return None
